@@ -27,7 +27,8 @@ def run(chk):
     r4(chk, prog)
     r5(chk, prog)
     from . import c11
-    c11.r7(chk, prog, prog.module("json_object.c"))   # shared: the sign-encoded string length is decoded before use
+    with chk.shared():
+        c11.r7(chk, prog, prog.module("json_object.c"))   # shared: the sign-encoded string length is decoded before use
     chk.undecided_clauses += [
         "string -> number conversion results (strtoll/strtod on data)",
         "exactness of int -> double conversions",
